@@ -11,13 +11,18 @@
 (* artifact, which the driver derives from how it constructed the          *)
 (* artifact) and names the first violated clause.                          *)
 (***************************************************************************)
-EXTENDS TestInfo, TraceBase
+EXTENDS TestInfo, TraceBase, FactorCriteria
 VARIABLE tid
 
 \* checks run by this call, as a set
 Ran(r) == IF r.all THEN SeqSet(ChecksOf(r.kind)) ELSE SeqSet(r.checks)
 App(r, a, c) == Applies(c, a.has_params)
 Get(f, k, d) == IF k \in DOMAIN f THEN f[k] ELSE d
+Attrs(a) == IF "attrs" \in DOMAIN a THEN a.attrs ELSE [family |-> "none"]
+DefaultPar == [max_steps |-> 100000]
+\* the closed-form criterion of the specification where the construction parameters decide it, else the class criterion
+CritP(r, a, c) == LET k == Criterion(c, Attrs(a), IF "par" \in DOMAIN r THEN r.par ELSE DefaultPar) IN
+                  IF k = "none" THEN Get(a.crit, c, "may") ELSE k
 Crit(a, c) == Get(a.crit, c, "may")
 EntriesOf(t) == t.entries
 NameSeq(t) == [i \in 1..Len(t.entries) |-> t.entries[i].name]
@@ -50,14 +55,21 @@ ArtVerdict(r, a) ==
   ELSE IF \E c \in Names(b) \cap ran : Res(b, c) /\ ~Res(f, c) THEN "PositiveEntryNeverCleared"
   ELSE IF \E c \in Names(b) \cap ran : Sev(f, c) < Sev(b, c) THEN "SeverityNeverLowered"
   \* verdict against the criterion of this artifact
-  ELSE IF \E c \in ran : Crit(a, c) = "mustnot" /\ Res(f, c) /\ ~(HasEntry(b, c) /\ Res(b, c)) THEN "MustNotFlag"
-  ELSE IF \E c \in ran : Crit(a, c) = "must" /\ ~Res(f, c) THEN "MustFlag"
+  ELSE IF \E c \in ran : CritP(r, a, c) = "mustnot" /\ Res(f, c) /\ ~(HasEntry(b, c) /\ Res(b, c)) THEN "MustNotFlag"
+  ELSE IF \E c \in ran : CritP(r, a, c) = "must" /\ ~Res(f, c) THEN "MustFlag"
+  \* primes agreeing on enough low and high bits: Fermat or the equal-bits check factors the key
+  ELSE IF Fam(Attrs(a)) = "highlow" /\ InHighLowRegion(Attrs(a)) /\ {"CheckFermat", "CheckHighAndLowBitsEqual"} \subseteq ran
+          /\ ~Res(f, "CheckFermat") /\ ~Res(f, "CheckHighAndLowBitsEqual") THEN "MustFlagByFermatOrEqualBits"
+  \* documented families are factored: both primes recorded
+  ELSE IF \E c \in ran : MustFactor(c, Attrs(a)) /\ Res(f, c) /\ ~f.nf_is_pq THEN "BothPrimesRecorded"
+  ELSE IF Fam(Attrs(a)) = "highlow" /\ InHighLowRegion(Attrs(a)) /\ (\E c \in ran \cap {"CheckFermat", "CheckHighAndLowBitsEqual"} : Res(f, c))
+          /\ ~f.nf_is_pq THEN "BothPrimesRecorded"
   \* severity of entries written by this call
   ELSE IF \E c \in ran \ Names(b) : Sev(f, c) \notin SevOptions(a, c, Res(f, c)) THEN "DocumentedSeverity"
   ELSE IF \E c \in ran \cap Names(b) :
             Sev(f, c) \notin {Max2(Sev(b, c), s) : s \in SevOptions(a, c, TRUE) \cup SevOptions(a, c, FALSE)} THEN "SeverityIsMax"
   ELSE IF HasEntry(f, "CheckLowHammingWeight") /\ ~HasEntry(b, "CheckLowHammingWeight") /\ "CheckLowHammingWeight" \in ran
-          /\ Res(f, "CheckLowHammingWeight") /\ Sev(f, "CheckLowHammingWeight") = 4 /\ f.nf = {} THEN "DocumentedSeverity"
+          /\ Res(f, "CheckLowHammingWeight") /\ Sev(f, "CheckLowHammingWeight") = 4 /\ ToSet(f.nf) = {} THEN "DocumentedSeverity"
   \* weak flag and version
   ELSE IF b.weak /\ ~f.weak THEN "WeakNeverCleared"
   ELSE IF f.weak # (b.weak \/ \E c \in ran : Res(f, c) /\ ~(HasEntry(b, c) /\ Res(b, c))) /\ WeakIffPositive(b) THEN "WeakIffPositiveEntry"
@@ -82,8 +94,8 @@ RetExpected(r) ==
   LET newpos == \E i \in 1..Len(r.arts) : \E c \in Ran(r) :
                    App(r, r.arts[i], c) /\ HasEntry(r.arts[i].after, c) /\ Res(r.arts[i].after, c)
                    /\ ~(HasEntry(r.arts[i].before, c) /\ Res(r.arts[i].before, c))
-      mustpos == \E i \in 1..Len(r.arts) : \E c \in Ran(r) : App(r, r.arts[i], c) /\ Crit(r.arts[i], c) = "must"
-      canpos == \E i \in 1..Len(r.arts) : \E c \in Ran(r) : App(r, r.arts[i], c) /\ Crit(r.arts[i], c) # "mustnot"
+      mustpos == \E i \in 1..Len(r.arts) : \E c \in Ran(r) : App(r, r.arts[i], c) /\ CritP(r, r.arts[i], c) = "must"
+      canpos == \E i \in 1..Len(r.arts) : \E c \in Ran(r) : App(r, r.arts[i], c) /\ CritP(r, r.arts[i], c) # "mustnot"
   IN IF newpos \/ mustpos THEN {TRUE} ELSE IF ~canpos THEN {FALSE} ELSE BOOLEAN
 
 Consume(r) ==
